@@ -118,7 +118,8 @@ class Multiplexer(ComplexDop):
 
         if isinstance(case_spec, str):
             applicable_cases = [x for x in self.cases if x.short_name == case_spec]
-            if not applicable_cases and self.default_case:
+            if not applicable_cases and self.default_case is not None and \
+               self.default_case.short_name == case_spec:
                 applicable_cases.append(self.default_case)
             if len(applicable_cases) == 0:
                 raise EncodeError(
